@@ -81,22 +81,26 @@ def send(eng, idx, v, asbytes, opsel):
     return env.run(eng.execute(q, variables=variables, operation_name=op, context=ctx))
 
 
-@obligation(tier="quick", timeout=300, thorough_timeout=1500, shards=[{"cfg": c, "first": f} for c in ENGS for f in range(len(POOL))],
-            quick_shards=[i for i, (c, f) in enumerate((c, f) for c in ENGS for f in range(len(POOL))) if (c == "default" and f in (0, 1, 2, 3, 6)) or (c == "lru1" and f in (1, 4)) or (c == "dict" and f in (2,)) or (c == "none" and f == 0)],
-            samples=[{"i1": 1, "i2": 1, "v0": 1, "v1": 2, "v2": 3, "b0": False, "b1": True, "b2": False, "o": True, "n": 3}, {"i1": 4, "i2": 0, "v0": None, "v1": 2**31, "v2": 0, "b0": True, "b1": True, "b2": False, "o": False, "n": 2}],
-            symbolic=["v0, v1, v2: Optional[int] — the variable of each request (unbounded)"],
-            selectors=["i1, i2: pool index of the 2nd and 3rd request", "b0..b2: str or bytes spelling", "o: operation name / failure selector", "n: sequence length 1..3", "shard: cache configuration, first request"],
-            bounds="sequences <= 3 over 9 documents",
+SH16 = [{"cfg": c, "first": f, "second": g} for c in ENGS for f in range(len(POOL)) for g in range(len(POOL))]
+Q16 = [i for i, s in enumerate(SH16) if (s["cfg"], s["first"], s["second"]) in (("default", 0, 0), ("default", 1, 1), ("default", 2, 2), ("default", 3, 3), ("default", 6, 0), ("default", 4, 1),
+                                                                               ("lru1", 1, 0), ("lru1", 2, 4), ("dict", 2, 2), ("dict", 8, 8), ("none", 1, 1), ("default", 7, 7))]
+
+
+@obligation(tier="quick", timeout=300, thorough_timeout=900, shards=SH16, quick_shards=Q16,
+            samples=[{"i2": 1, "v0": 1, "v1": 2, "b1": True, "o": True}, {"i2": 0, "v0": 2**31, "v1": None, "b1": False, "o": False}],
+            symbolic=["v0: int, v1: Optional[int] — the variables of the first two requests (unbounded); the third request reuses v0"],
+            selectors=["i2: pool index of the 3rd request", "b1: str or bytes spelling of the 2nd request (the 3rd uses the other one)", "o: operation name / failure selector", "shard: cache configuration, first and second request"],
+            bounds="sequences of 3 requests (every prefix is checked position by position) over 9 documents",
             note="every response of the sequence == the uncached engine's response to the same request; repeating a request gives the same response; failed/invalid requests leave no trace")
-def c16_history(i1: int, i2: int, v0: Optional[int], v1: Optional[int], v2: Optional[int], b0: bool, b1: bool, b2: bool, o: bool, n: int) -> bool:
+def c16_history(i2: int, v0: int, v1: Optional[int], b1: bool, o: bool) -> bool:
     """
     post: _
     """
     sh = shard()
     eng = ENGS[sh["cfg"]]
-    n = 1 + pick(n - 1, 3)
-    idxs = [sh["first"], pick(i1, len(POOL)), pick(i2, len(POOL))][:n]
-    vs = [v0, v1, v2]; bs = [pickb(b0), pickb(b1), pickb(b2)]
+    idxs = [sh["first"], sh["second"], pick(i2, len(POOL))]
+    b1 = pickb(b1)
+    vs = [v0, v1, v0]; bs = [False, b1, not b1]
     o = pickb(o)
     reset_caches()
     for k, idx in enumerate(idxs):
